@@ -46,12 +46,14 @@ class OperatorDict(Mapping):
         """ Store func in the numspace under a name that identifies this function only. """
         numspace = self.algebra.numspace
         name, n = func.__name__, len(numspace)
-        while func.__name__ in numspace:
+        # setdefault reserves the name atomically, so two threads can never settle on the same name.
+        while numspace.setdefault(func.__name__, func) is not func:
             # Generated names only encode which blades are present (or the name of the registered function),
             # not their order, so different functions can be generated with the same name.
             func.__name__ = f'{name}_{n}'
             n += 1
-        numspace[func.__name__] = self.algebra.wrapper(func) if self.algebra.wrapper else func
+        if self.algebra.wrapper:
+            numspace[func.__name__] = self.algebra.wrapper(func)
 
     def __getitem__(self, keys_in: Tuple[Tuple[int]]):
         if keys_in not in self.operator_dict:
